@@ -181,9 +181,11 @@ class Scrambler(Elaboratable):
         comma_present = stream_word_matches_symbol(sink, 0, symbol=COM)
 
         # Create our inner LFSR, which should advance whenever our input streams do.
+        # The comma only restarts the sequence once its word is actually accepted downstream; otherwise a
+        # stalled comma word would be re-scrambled with the restarted sequence while it waits.
         m.submodules.lfsr = lfsr = ScramblerLFSR(initial_value=self._initial_value)
         m.d.comb += [
-            lfsr.clear    .eq(self.clear | comma_present),
+            lfsr.clear    .eq(self.clear | (comma_present & source.ready)),
             lfsr.advance  .eq(sink.valid & source.ready & ~self.hold)
         ]
 
